@@ -367,6 +367,8 @@ def main(argv=None):
         harness_error = 'reachability twin not violated for %d configuration(s), e.g. %r' % (len(twins_bad), twins_bad[0])
     elif frac_inconcl > 0.10:
         harness_error = 'inconclusive share %.1f%% exceeds 10%%' % (100 * frac_inconcl)
+    elif a.tier == 'quick' and skipped > 0.25 * max(1, len(tasks)):
+        harness_error = 'budget exhausted: %d of %d configurations were not explored (the quick tier is sized to finish; a slowdown of this size means the code under test changed its path structure)' % (skipped, len(tasks))
     elif explored == 0:
         harness_error = 'nothing explored'
 
